@@ -441,7 +441,8 @@ def run_c01(task):
         out["inexact_floats"] = inexact
         if task.get("probe", True):
             try:
-                out["probe"] = _flow_probe(task["indict"], ana, task.get("pseed", 1))
+                ref = task.get("reference_indict")      # equations that define the expected flow when the input uses function-of-time entries
+                out["probe"] = _flow_probe(dict(ref, options=task["indict"].get("options")) if ref else task["indict"], ana, task.get("pseed", 1))
             except Exception as e:   # noqa
                 out["probe"] = {"error": "%s: %s" % (type(e).__name__, str(e)[:300])}
         return out
